@@ -96,8 +96,25 @@ static void finish(ThreadPool* pool) {
 // resize to a symbolically chosen size in 0..2 different from the current one.  The choice is dispatched to
 // calls with a literal argument so that constant propagation keeps loop trip counts concrete inside
 // resizeLocked (same set of behaviours).
+#ifndef VF_RT
+#define VF_RT 9  // resize target: 0..2 = fixed by the instance, 9 = symbolic
+#endif
+#ifndef VF_CHOICE
+#define VF_CHOICE 9  // optional consumer steps: 0 = skipped, 1 = taken, 9 = symbolic
+#endif
+static bool choice() {
+#if VF_CHOICE == 9
+  return vf_nondet_bool();
+#else
+  return VF_CHOICE != 0;
+#endif
+}
 static void resize_other(ThreadPool& p, ssize_t n) {
+#if VF_RT == 9
   uint32_t t = vf_range_u32(0, 2);
+#else
+  uint32_t t = VF_RT;
+#endif
   vf_assume((ssize_t)t != n);
   if (t == 0) {
     p.resize(0);
@@ -129,7 +146,7 @@ extern "C" void vf_main() {
     ts->scheduleBulk((size_t)VF_N, Gen{0});
     g_submitted = VF_N;
     vf_check(pool->workRemaining_.load() == VF_N, "harness: bulk must be pending (ring fast path taken)");
-    if (vf_nondet_bool()) {
+    if (choice()) {
       size_t start = 0;
       pool->tryExecuteNextFromRings(start);
       vf_reach("waiter stole a ring task before the resize");
@@ -168,7 +185,7 @@ extern "C" void vf_main() {
   pool->schedule(Task{g_submitted++}, ForceQueuingTag());
   pool->scheduleBulk(2, Gen{g_submitted});
   g_submitted += 2;
-  if (vf_nondet_bool()) {
+  if (choice()) {
     drain_queue(*pool);
     never_twice();
     at_quiescence(*pool);
@@ -206,11 +223,11 @@ extern "C" void vf_main() {
     ts->scheduleBulk((size_t)VF_N, Gen{0});
     g_submitted = VF_N;
     vf_check(pool->work_.n_ == 1, "harness: ring 0 full, its task must have fallen back to the central queue");
-    if (vf_nondet_bool()) {
+    if (choice()) {
       size_t start = 0;
       pool->tryExecuteNextFromRings(start);
     }
-    if (vf_nondet_bool()) {
+    if (choice()) {
       pool->tryExecuteNext();
     }
     never_twice();
